@@ -4,7 +4,11 @@
 //!   chain sats item*
 //!   item: 0 count first_id        `count` empty blocks (coinbase = one output claiming the subsidy);
 //!                                 the very first one is the genesis block of the network
-//!         1 ntx tx*               tx: id nin (ptx pvout)* nout (value opret)* nenv env*
+//!         1 ntx tx*               tx: id nin (ptx pvout)* nout (value script)* nenv env*
+//!                                 script = 2*kind + f: kind selects the output script the harness builds
+//!                                 (SCRIPT_KINDS below; kind 0: f = 0 p2wpkh, f = 1 a bare OP_RETURN), f = 1 iff
+//!                                 the first byte of that script is 0x6a (computed here from the script bytes,
+//!                                 checked at replay); the model reads only f
 //!   env:  nrecipe recipe*  input offset pushnum stutter dup incomplete uneven ptr_field ptr_opt hidden
 //!         nparents (ptx pidx)*
 //! Transaction ids are canonical small integers in creation order (0 = all-zero txid).  The recipe
@@ -44,7 +48,59 @@ pub struct TxSpec {
   pub id: u64,
   pub ins: Vec<(u64, u32)>,
   pub outs: Vec<(u64, bool)>,
+  /// script kind per output (missing = 0)
+  pub kinds: Vec<u64>,
   pub envs: Vec<EnvSpec>,
+}
+
+impl TxSpec {
+  pub fn kind(&self, i: usize) -> u64 {
+    self.kinds.get(i).copied().unwrap_or(0)
+  }
+}
+
+pub const SCRIPT_KINDS: u64 = 13;
+
+/// the output script of a kind, as raw bytes (`f` matters for kind 0 only)
+pub fn script_bytes(kind: u64, f: bool) -> Vec<u8> {
+  let h20 = [0x11u8; 20];
+  let h32 = [0x22u8; 32];
+  let mut v: Vec<u8> = Vec::new();
+  match kind {
+    0 => {
+      if f {
+        v.push(0x6a); // OP_RETURN alone
+      } else {
+        v.extend_from_slice(&[0x00, 0x14]); // p2wpkh of the all-zero hash
+        v.extend_from_slice(&[0u8; 20]);
+      }
+    }
+    1 => {}                                            // empty script
+    2 => v.extend_from_slice(&[0x50, 0x03, 1, 2, 3]),  // OP_RESERVED + data
+    3 => v.extend_from_slice(&[0x62, 0x02, 9, 9]),     // OP_VER + data
+    4 => v.extend_from_slice(&[0xff, 0x01, 0x02, 0x03]), // invalid opcode + bytes
+    5 => v.extend_from_slice(&[0x6a, 0x04, b'd', b'a', b't', b'a']), // OP_RETURN + data
+    6 => v.extend_from_slice(&[0x51, 0x6a, 0x02, 7, 7]), // OP_1 OP_RETURN ..: OP_RETURN not first
+    7 => {
+      v.extend_from_slice(&[0x51, 0x20]); // p2tr
+      v.extend_from_slice(&h32);
+    }
+    8 => {
+      v.extend_from_slice(&[0x76, 0xa9, 0x14]); // p2pkh
+      v.extend_from_slice(&h20);
+      v.extend_from_slice(&[0x88, 0xac]);
+    }
+    9 => v.extend_from_slice(&[0x65, 0x01, 0x00]),     // OP_VERIF + data
+    10 => v.extend_from_slice(&[0xbb, 0xbb, 0xbb]),    // undefined opcodes
+    11 => v.extend_from_slice(&[0x89, 0x01, 0x05]),    // OP_RESERVED1 + data
+    _ => v.extend_from_slice(&[0x00, 0x6a]),           // OP_0 OP_RETURN: OP_RETURN second
+  }
+  v
+}
+
+/// the harness's own rule for the flag handed to the model: the script's first byte is OP_RETURN (0x6a)
+pub fn first_byte_is_op_return(script: &[u8]) -> bool {
+  script.first() == Some(&0x6a)
 }
 
 #[derive(Clone, Debug)]
@@ -84,9 +140,9 @@ pub fn encode_case(c: &Case) -> Line {
             l.push(*b);
           }
           l.push(t.outs.len());
-          for (v, o) in &t.outs {
+          for (i, (v, o)) in t.outs.iter().enumerate() {
             l.push(*v);
-            l.push(*o);
+            l.push(2 * t.kind(i) + *o as u64);
           }
           l.push(t.envs.len());
           for e in &t.envs {
@@ -135,7 +191,9 @@ pub fn decode_case(line: &Line) -> Case {
         let nin = c.usize();
         let ins = (0..nin).map(|_| (c.u64(), c.u32())).collect();
         let nout = c.usize();
-        let outs = (0..nout).map(|_| (c.u64(), c.bool())).collect();
+        let raw: Vec<(u64, u64)> = (0..nout).map(|_| (c.u64(), c.u64())).collect();
+        let outs = raw.iter().map(|(v, f)| (*v, f & 1 == 1)).collect();
+        let kinds = raw.iter().map(|(_, f)| f >> 1).collect();
         let nenv = c.usize();
         let mut envs = Vec::new();
         for _ in 0..nenv {
@@ -155,7 +213,7 @@ pub fn decode_case(line: &Line) -> Case {
           let parents = (0..np).map(|_| (c.u64(), c.u32())).collect();
           envs.push(EnvSpec { recipe, input, offset, pushnum, stutter, dup, incomplete, uneven, ptr_field, ptr, hidden, parents });
         }
-        txs.push(TxSpec { id, ins, outs, envs });
+        txs.push(TxSpec { id, ins, outs, kinds, envs });
       }
       items.push(Item::Block(txs));
     }
@@ -314,22 +372,22 @@ fn append_envelope(mut b: bitcoin::script::Builder, r: &[u64], map: &mut TxMap) 
   b.push_opcode(OP_ENDIF)
 }
 
-pub fn op_return_script() -> bitcoin::ScriptBuf {
-  bitcoin::script::Builder::new().push_opcode(bitcoin::opcodes::all::OP_RETURN).into_script()
-}
-
-pub fn plain_script() -> bitcoin::ScriptBuf {
-  use bitcoin::hashes::Hash;
-  bitcoin::ScriptBuf::new_p2wpkh(&bitcoin::WPubkeyHash::all_zeros())
-}
-
 /// build the real transaction of a spec (`height` only feeds the coinbase script_sig)
 pub fn realise_tx(t: &TxSpec, height: usize, map: &mut TxMap) -> bitcoin::Transaction {
+  // the txid does not cover the witnesses: bind it first, so that an envelope can name an inscription of its
+  // own transaction (a sibling revealed later, or itself) as a parent
+  let bare = realise_tx_pass(t, height, map, false);
+  map.bind(t.id, bare.compute_txid());
+  realise_tx_pass(t, height, map, true)
+}
+
+fn realise_tx_pass(t: &TxSpec, height: usize, map: &mut TxMap, with_witness: bool) -> bitcoin::Transaction {
   let coinbase = t.ins.first().map(|(a, b)| *a == 0 && *b == NULL_VOUT).unwrap_or(false);
   let mut input = Vec::new();
   for (i, (ptx, pvout)) in t.ins.iter().enumerate() {
     let mut witness = bitcoin::Witness::new();
-    let mine: Vec<&EnvSpec> = t.envs.iter().filter(|e| e.recipe[R_INPUT] as usize == i).collect();
+    let mine: Vec<&EnvSpec> =
+      if with_witness { t.envs.iter().filter(|e| e.recipe[R_INPUT] as usize == i).collect() } else { Vec::new() };
     if !mine.is_empty() {
       let mut b = bitcoin::script::Builder::new();
       for e in mine {
@@ -356,9 +414,10 @@ pub fn realise_tx(t: &TxSpec, height: usize, map: &mut TxMap) -> bitcoin::Transa
     output: t
       .outs
       .iter()
-      .map(|(v, o)| bitcoin::TxOut {
+      .enumerate()
+      .map(|(i, (v, o))| bitcoin::TxOut {
         value: bitcoin::Amount::from_sat(*v),
-        script_pubkey: if *o { op_return_script() } else { plain_script() },
+        script_pubkey: bitcoin::ScriptBuf::from_bytes(script_bytes(t.kind(i), *o)),
       })
       .collect(),
   }
@@ -464,7 +523,7 @@ pub fn jubilee_of(chain: u64) -> u32 {
 }
 
 pub fn empty_coinbase(id: u64) -> TxSpec {
-  TxSpec { id, ins: vec![(0, NULL_VOUT)], outs: vec![(SUBSIDY, false)], envs: vec![] }
+  TxSpec { id, ins: vec![(0, NULL_VOUT)], outs: vec![(SUBSIDY, false)], kinds: vec![], envs: vec![] }
 }
 
 impl World {
@@ -508,10 +567,20 @@ impl World {
         }
         let mut built = Vec::new();
         for t in txs {
-          let tx = realise_tx(t, self.height(), &mut self.map);
           if self.map.real.contains_key(&t.id) {
             return Err(format!("canonical txid {} used twice", t.id));
           }
+          let mut t = t.clone();
+          for i in 0..t.outs.len() {
+            let f = first_byte_is_op_return(&script_bytes(t.kind(i), t.outs[i].1));
+            if fill {
+              t.outs[i].1 = f;
+            } else if t.outs[i].1 != f {
+              return Err(format!("tx {} output {i}: script kind {} starts with OP_RETURN: {f}, the case declares {}", t.id, t.kind(i), t.outs[i].1));
+            }
+          }
+          let t = &t;
+          let tx = realise_tx(t, self.height(), &mut self.map);
           self.map.bind(t.id, tx.compute_txid());
           let recipes: Vec<Vec<u64>> = t.envs.iter().map(|e| e.recipe.clone()).collect();
           let parsed = parsed_envs(&tx, &recipes, &self.map)?;
@@ -644,9 +713,100 @@ pub fn observe(dump: &ord::index::verif::Dump, map: &TxMap) -> Line {
   l.done()
 }
 
+pub type Events = Vec<ord::index::event::Event>;
+
+/// open an index with an event receiver attached (Index::open_with_event_sender)
+pub fn open_index_ev(core: &mockcore::Handle, dir: &std::path::Path, flags: &[&str]) -> (ord::Index, tokio::sync::mpsc::Receiver<ord::index::event::Event>) {
+  use clap::Parser;
+  let mut args: Vec<String> = vec![
+    "ord".into(),
+    "--bitcoin-rpc-url".into(),
+    core.url(),
+    "--cookie-file".into(),
+    core.cookie_file().to_str().unwrap().into(),
+    "--data-dir".into(),
+    dir.to_str().unwrap().into(),
+  ];
+  if !flags.iter().any(|f| *f == "--testnet4") {
+    args.push("--regtest".into());
+  }
+  args.extend(flags.iter().map(|s| s.to_string()));
+  let options = ord::Options::try_parse_from(args).expect("options");
+  let settings = ord::settings::Settings::merge(options, Default::default()).expect("settings");
+  let (sender, receiver) = tokio::sync::mpsc::channel(1 << 20);
+  (ord::Index::open_with_event_sender(&settings, Some(sender)).expect("open index"), receiver)
+}
+
+fn drain(rx: &mut tokio::sync::mpsc::Receiver<ord::index::event::Event>, into: &mut Events) {
+  while let Ok(e) = rx.try_recv() {
+    into.push(e);
+  }
+}
+
+/// the inscription events, block by block, in the format of InscrEvents.emit_event
+pub fn observe_events(events: &Events, nblocks: usize, map: &TxMap, l: &mut L) {
+  use ord::index::event::Event;
+  let mut per: Vec<Vec<&Event>> = vec![Vec::new(); nblocks];
+  for e in events {
+    let h = match e {
+      Event::InscriptionCreated { block_height, .. } | Event::InscriptionTransferred { block_height, .. } => *block_height as usize,
+      _ => continue,
+    };
+    if h < nblocks {
+      per[h].push(e);
+    } else {
+      per[nblocks - 1].push(e);
+    }
+  }
+  l.push(nblocks);
+  for evs in per {
+    l.push(evs.len());
+    for e in evs {
+      match e {
+        Event::InscriptionCreated { block_height, charms, inscription_id, location, parent_inscription_ids, sequence_number } => {
+          l.push(0u8);
+          l.push(*block_height);
+          l.push(*charms & CHARM_MASK);
+          l.push(map.canon_of(&inscription_id.txid));
+          l.push(inscription_id.index);
+          match location {
+            None => l.push(0u8),
+            Some(sp) => {
+              l.push(1u8);
+              l.push(map.canon_of(&sp.outpoint.txid));
+              l.push(sp.outpoint.vout);
+              l.push(sp.offset);
+            }
+          }
+          l.push(parent_inscription_ids.len());
+          for p in parent_inscription_ids {
+            l.push(map.canon_of(&p.txid));
+            l.push(p.index);
+          }
+          l.push(*sequence_number);
+        }
+        Event::InscriptionTransferred { block_height, inscription_id, new_location, old_location, sequence_number } => {
+          l.push(1u8);
+          l.push(*block_height);
+          l.push(map.canon_of(&inscription_id.txid));
+          l.push(inscription_id.index);
+          for sp in [new_location, old_location] {
+            l.push(map.canon_of(&sp.outpoint.txid));
+            l.push(sp.outpoint.vout);
+            l.push(sp.offset);
+          }
+          l.push(*sequence_number);
+        }
+        _ => {}
+      }
+    }
+  }
+}
+
 pub struct Indexed {
   pub world: World,
   pub index: ord::Index,
+  pub events: Events,
   pub dump: ord::index::verif::Dump,
   /// dump after each height (only when asked for)
   pub history: Vec<ord::index::verif::Dump>,
@@ -659,28 +819,31 @@ pub fn build_and_index(case: &Case, stepwise: bool) -> Result<Indexed, String> {
   let dir = scratch_dir();
   let flags = chain_flags(case.chain, case.sats);
   let mut history = Vec::new();
+  let mut events = Events::new();
   if stepwise {
-    let index = ordkit::open_index(&world.core, dir.path(), &flags);
+    let (index, mut rx) = open_index_ev(&world.core, dir.path(), &flags);
     for it in &case.items {
       // item by item; empty runs in one go, but a dump per height is needed: replicate the last
       let before = world.height();
       world.add_item(it, false).map_err(|e| format!("[harness-realisation] {e}"))?;
       index.update().map_err(|e| format!("[update-error] {e:#}"))?;
+      drain(&mut rx, &mut events);
       let d = index.verif_dump().map_err(|e| format!("[dump-error] {e:#}"))?;
       for _ in before..world.height() {
         history.push(d.clone());
       }
     }
     let dump = index.verif_dump().map_err(|e| format!("[dump-error] {e:#}"))?;
-    Ok(Indexed { world, index, dump, history, _dir: dir })
+    Ok(Indexed { world, index, events, dump, history, _dir: dir })
   } else {
     for it in &case.items {
       world.add_item(it, false).map_err(|e| format!("[harness-realisation] {e}"))?;
     }
-    let index = ordkit::open_index(&world.core, dir.path(), &flags);
+    let (index, mut rx) = open_index_ev(&world.core, dir.path(), &flags);
     index.update().map_err(|e| format!("[update-error] {e:#}"))?;
+    drain(&mut rx, &mut events);
     let dump = index.verif_dump().map_err(|e| format!("[dump-error] {e:#}"))?;
-    Ok(Indexed { world, index, dump, history, _dir: dir })
+    Ok(Indexed { world, index, events, dump, history, _dir: dir })
   }
 }
 
@@ -690,7 +853,9 @@ fn run_case(prop: &str, line: &Line) -> Outcome {
   match build_and_index(&case, stepwise) {
     Err(m) => Outcome { obs: vec![Z { neg: true, mag: 3 }], oracle: Err(m), cat: format!("{prop}/harness-error") },
     Ok(ix) => {
-      let obs = observe(&ix.dump, &ix.world.map);
+      let mut obs = L(observe(&ix.dump, &ix.world.map));
+      observe_events(&ix.events, ix.world.height(), &ix.world.map, &mut obs);
+      let obs = obs.done();
       let (oracle, cat) = oracle::judge(prop, &case, &ix);
       Outcome { obs, oracle, cat: format!("{prop}/{cat}") }
     }
